@@ -59,6 +59,8 @@ def _flood_check(plan, res):
     for e in evs: by_cycle.setdefault(e.cycle, []).append(e)
     first_bomb = next((e.cycle for e in evs if e.kind == 'R' and re.match(r'U \S+ B9\d\d', e.rest)), None)
     if first_bomb is None: return v
+    # (the rule speaks about an object that is known to beat: it has been seen beating before the first command failed)
+    if not any(e.kind == 'R' and e.rest.startswith('HB clk ') and e.cycle < first_bomb for e in evs): return v
     for c in tick_cycles:
         if c < first_bomb: continue
         ce = by_cycle.get(c, [])
